@@ -32,7 +32,7 @@ class C05(WigBedProp):
             "with one record per section gives a second tree per file; bigBed-shaped files with non-monotone ends. Queries: each "
             "block's first base, last base, the gap after it, the base before it, both chromosome ends, plus seeded pairs of "
             "boundary points. Every uncompressed file is also answered by the byte-level reader model on the implementation's "
-            "own bytes and checked by the Lean well-formedness certificate. Non-trivial = tree with ≥ 2 levels")
+            "own bytes and checked by the Lean well-formedness certificate. Plus searches with a reader whose k-th read fails once (every k ≤ 30): an error or exactly the linear scan's blocks; plus index images from the independent encoder. Non-trivial = tree with ≥ 2 levels")
 
     def shapes(self, tier):
         if tier == "thorough":
@@ -93,6 +93,20 @@ class C05(WigBedProp):
                     lines += [f"Q zoom {nm} {a} {c} #0" for (nm, a, c) in qs[::5]]
                     lines += [f"Q zoom {nm} 0 {sizes[nm]} #0" for nm in names]
                 out.append(CaseT(f"t{k}", "wig", [], lines, tags))
+        # transient read failures while the index is searched: a reader whose k-th read after opening fails once — at every k
+        # the search must report the failure or find exactly what the linear scan finds (never fewer blocks, silently)
+        for g in range(12 if tier != "thorough" else 60):
+            r = rng.fork(f"flaky{g}")
+            names = ["chrA", "chrB", "chrC"][: r.range(1, 3)]
+            sizes = {n: 5000 for n in names}
+            data = {n: [(7 * i + j, 7 * i + j + 4, bbgen.f32bits(float(1 + (i + j) % 6))) for i in range(r.range(4, 30))] for j, n in enumerate(names)}
+            o = {"compress": 0, "ips": r.choice([1, 2]), "bs": r.choice([2, 3, 4]), "zooms": "none", "pass": 1, "inmem": 1, "rt": "mt",
+                 "threads": 2, "chan": 100, "src": "iter", "sort": "all", "reader": "flaky", "flaky": 30}
+            nm = r.choice(names)
+            a = r.range(0, 60)
+            b = a + r.choice([1, 5, 40, 400])
+            lines = [bbgen.opt_line(o)] + bbgen.wig_lines(names, sizes, data) + [f"Q iv {nm} {a} {b}"]
+            out.append(CaseT(f"flaky{g}", "wig", [], lines, {"transient_read_failures", "nt", "multi_section"}))
         # index images no bigtools writer produces (big-endian, depth-first / reversed / index-before-data placement, other
         # fan-outs): the readers' big-endian node decoders are reached only by these
         out += self.foreign_cases(rng.fork("fw"), tier, False, 40, 250) + [c.copy(id="b" + c.id) for c in self.foreign_cases(rng.fork("fb"), tier, True, 40, 250)]
@@ -101,9 +115,33 @@ class C05(WigBedProp):
     def nontrivial(self, case, il):
         return "nt" in case.tags
 
+    def compare(self, case, il, ml):
+        if "transient_read_failures" in case.tags:
+            return None                      # judged by the oracle (the model has no failing reads)
+        return super().compare(case, il, ml)
+
     def oracle(self, case, il):
         if case.kind in ("readwig", "readbed"):
             return self.foreign_oracle(case, il)
+        if "transient_read_failures" in case.tags:
+            bad = bbgen.basic_ok(il)
+            if bad:
+                return bad
+            if not case.records("Q"):
+                return None
+            q = case.records("Q")[0]
+            nm, a, b = q[2], int(q[3]), int(q[4])
+            want = "ok" + "".join(f" {max(s_, a)}:{min(e_, b)}:{bits}" for (t, c, s_, e_, bits) in
+                                  [(l[0], l[1], int(l[2]), int(l[3]), l[4]) for l in case.records("V")] if c == nm and e_ > a and s_ < b)
+            fl = [l for l in il if l.startswith("F ")]
+            if not fl or fl[0] != "F 0 " + want:
+                return f"undisturbed reader: `{(fl[0] if fl else '')[:120]}`, the stored values overlapping {nm}:{a}-{b} are `{want[:120]}`"
+            for l in fl[1:]:
+                k, rest = l.split(" ", 2)[1:]
+                if rest != "err" and rest != want:
+                    return (f"the {k}-th read after opening failed once: the query {nm}:{a}-{b} reported success with {rest.count(':') // 2} values, "
+                            f"a linear scan finds {want.count(':') // 2}")
+            return None
         bad = bbgen.basic_ok(il)
         if bad:
             return bad
@@ -122,7 +160,9 @@ class C05(WigBedProp):
             path = os.path.join(outdir, cid + ".bin")
             if not os.path.exists(path) or (impl.get(cid) or ["x"])[0] != "R ok":
                 continue
-            if c.kind == "wig":
+            if c.kind == "wig" and "transient_read_failures" in c.tags:
+                stage.append(CaseT("wf_" + cid, "wfwig", [], [f"FILE {path}"]))
+            elif c.kind == "wig":
                 stage.append(CaseT("rd_" + cid, "readwig", [], [f"FILE {path}"] + [l for l in c.lines if l.startswith("Q iv")]))
                 stage.append(CaseT("wf_" + cid, "wfwig", [], [f"FILE {path}"]))
             else:
